@@ -12,7 +12,10 @@ EXTENDS Integers, Sequences, FiniteSets, TLC, Json
 
 CONSTANTS Objects,     \* e.g. {"o1","o2"}
           Contents,    \* catalogue ids of texts, e.g. {"shallow","nested","deeper","badscan","badrule","badvalue","usesT","typeT"}
-          Ops,         \* subset of {"Check","Example","GetAST","Len","Used","OpenAPI"}
+          Ops,         \* the public operations of the kind of object explored: for schemas a subset of
+                       \* {"Check","Example","GetAST","Len","Used","OpenAPI"}; the other kinds (JSON document, number,
+                       \* regex schema, enum rule, literal guessing) have their own lists in SchemaApi_<kind>.cfg
+          Registers,   \* BOOLEAN: can objects be registered as user types of one another (schemas only)?
           MaxCalls
 
 \* which contents fail, and where (known meaning of the catalogue texts)
@@ -51,7 +54,8 @@ Call(op, o) == /\ content[o] # "none"
                /\ UNCHANGED <<content, regs>>
 
 \* AddType(o, "@t", t): only meaningful before o is compiled; the library loads both
-AddType(o, t) == /\ content[o] # "none" /\ content[t] # "none" /\ o # t
+AddType(o, t) == /\ Registers
+                 /\ content[o] # "none" /\ content[t] # "none" /\ o # t
                  /\ o \notin frozen
                  /\ \A x \in Objects : t \notin regs[x]      \* one object is the type of at most one root
                  /\ regs[t] = {}                              \* and types of types are not nested here:
